@@ -32,4 +32,7 @@ def run(chk, tier):
     from nx import interval
     nseek = term.check_seek_discipline(chk, prog, fns, interval.Engine(prog))
     chk.floor("seek sites", nseek, 2)
+    if tier == "thorough":
+        from nx import clippyx
+        clippyx.cross_check(chk, prog, fns, "decode")
     chk.floor("functions in scope", len(fns), 60)
